@@ -146,6 +146,18 @@ def _validate(ctx, events, label):
     ctx.traces_validated += len(segs) - len(badsegs)
 
 
+
+def _tlc_retry(ctx, module, cfg, timeout, **kw):
+    """ctx.tlc with a bounded wait and one retry: a TLC JVM that hangs (seen once, right after the initial states of a
+    negative control with several workers) must not stall the check."""
+    try:
+        return ctx.tlc(module, cfg, timeout=timeout, **kw)
+    except vlib.MachineryError as e:
+        if "timeout" not in str(e):
+            raise
+        vlib.log("TLC %s/%s did not finish within %d s, retrying once" % (module, cfg, timeout))
+        return ctx.tlc(module, cfg, timeout=timeout * 3, **kw)
+
 def run(ctx):
     q = ctx.tier == "quick"
     # R1: the contract machine (any legal chunker), the implementation-shaped element walk with the contract's heading
@@ -174,10 +186,11 @@ def run(ctx):
             ("ChunkReuseMC", "ChunkReuse_mc_reset_par.cfg", {"expect_violation": True}),
             ("ChunkReuseMC", "ChunkReuse_mc_carry.cfg", {"expect_violation": True})]
     with ThreadPoolExecutor(max_workers=12) as ex:
-        futs = [ex.submit(ctx.tlc, m, c, workers=3, timeout=3000, count=False, jvm=JVM_SMALL, **kw) for m, c, kw in jobs]
+        futs = [ex.submit(_tlc_retry, ctx, m, c, 300 if q else 3000, workers=1 if kw else 3, count=False, jvm=JVM_SMALL, **kw)
+                for m, c, kw in jobs]   # negative controls: one worker
         # R2 emission runs meanwhile, in a second pool (one JVM each, single worker for a stable order)
         def emit(cfg, **kw):
-            return ctx.tlc("ChunkingMC", cfg, workers=1, collect=True, count=False, timeout=3000, jvm=JVM_SMALL, **kw)
+            return _tlc_retry(ctx, "ChunkingMC", cfg, 300 if q else 3000, workers=1, collect=True, count=False, jvm=JVM_SMALL, **kw)
         with ThreadPoolExecutor(max_workers=4) as ex2:
             e = {
                 "gen": ex2.submit(emit, "Chunking_gen_quick.cfg" if q else "Chunking_gen_thorough.cfg"),
